@@ -207,6 +207,9 @@ pub enum JunkKind {
     NeverSent(i32),
     /// Well-formed quotation naming the next unissued sequence.
     NextUnissued,
+    /// Well-formed quotation naming the sequence of a probe of the current round that never
+    /// reached the wire (its send, bind or connect failed: the slot is Failed or Skipped).
+    Unsent,
     /// Unrelated ICMP traffic (an Echo Request from someone pinging this host): decodes to nothing.
     Inert,
 }
@@ -238,6 +241,8 @@ pub struct NetCfg {
     /// Fixed ports (for junk generation).
     pub fixed_sport: Option<u16>,
     pub fixed_dport: Option<u16>,
+    /// A path change: every datagram sent in round >= .0 travels over topology .1.
+    pub reroute: Option<(usize, Topo)>,
 }
 
 #[derive(Debug, Clone, Copy, PartialEq, Eq)]
@@ -735,6 +740,11 @@ impl World {
 
     /// Topology: decide who answers datagram `idx`.
     fn route(&mut self, idx: usize, sock: usize) {
+        if self.cfg.reroute.as_ref().is_some_and(|(k, _)| self.round >= *k) {
+            let (_, alt) = self.cfg.reroute.take().expect("checked");
+            self.hop_seen = vec![0; alt.hops.len() + 1];
+            self.cfg.topo = alt;
+        }
         let sent = self.sent[idx].clone();
         let nhops = self.cfg.topo.hops.len();
         let ttl = usize::from(sent.ttl);
@@ -999,6 +1009,35 @@ impl World {
                 if target >= first.seq? && target <= last.seq? {
                     return None;
                 }
+                match self.cfg.seq_loc {
+                    SeqLoc::IcmpSeq => plan.edits.push((l4 + 6, target)),
+                    SeqLoc::UdpDport | SeqLoc::TcpDport => plan.edits.push((l4 + 2, target)),
+                    SeqLoc::UdpSport | SeqLoc::TcpSport => plan.edits.push((l4, target)),
+                    SeqLoc::UdpCksum => plan.edits.push((l4 + 6, target)),
+                    SeqLoc::IpId => plan.edits.push((4, target)),
+                    SeqLoc::PayloadLen => {
+                        let len = i64::from(target) - i64::from(self.cfg.initial_sequence) + 14;
+                        if !(14..=65535).contains(&len) {
+                            return None;
+                        }
+                        plan.edits.push((l4 + 4, len as u16));
+                    }
+                }
+            }
+            JunkKind::Unsent => {
+                // attempts of a round take consecutive sequence numbers: the one at position i
+                // has the sequence of a transmitted one at position j, plus i - j
+                let att: Vec<&Attempt> = self.attempts.iter().filter(|a| a.round == self.round).collect();
+                let (j, sj) = att.iter().enumerate().find_map(|(j, a)| match a.outcome {
+                    AttemptOutcome::Sent(idx) => self.sent[idx].seq.map(|s| (j, s)),
+                    _ => None,
+                })?;
+                let i = att.iter().rposition(|a| matches!(a.outcome, AttemptOutcome::Fault { .. }))?;
+                let target = i64::from(sj) + i as i64 - j as i64;
+                if !(0..=65535).contains(&target) || cur.iter().any(|s| s.seq == Some(target as u16)) {
+                    return None;
+                }
+                let target = target as u16;
                 match self.cfg.seq_loc {
                     SeqLoc::IcmpSeq => plan.edits.push((l4 + 6, target)),
                     SeqLoc::UdpDport | SeqLoc::TcpDport => plan.edits.push((l4 + 2, target)),
